@@ -89,6 +89,10 @@ pub proof fn axiom_addr_space_bytes(b: &Bytes)
     ensures b@.len() < 0x0100_0000_0000_0000
 {}
 #[verifier::external_body]
+pub proof fn axiom_vec_len<T>(v: &Vec<T>)
+    ensures v@.len() <= isize::MAX
+{}
+#[verifier::external_body]
 pub proof fn axiom_slice_len<T>(b: &[T])
     ensures b@.len() <= isize::MAX
 {}
